@@ -562,6 +562,14 @@ def _eval_call (repo, module, e, env, cls):
         vals = list(args[0])
         return vals[0] if vals else args[1]
       except Exception: raise _Unknown()
+  if isinstance(fn, ast.Attribute) and isinstance(fn.value, ast.Name) and fn.value.id == 'socket' and fn.attr in ('htonl', 'ntohl', 'htons', 'ntohs') and len(e.args) == 1 and not e.keywords \
+     and 'socket' not in env.exact:
+    # byte-order conversion of the standard library (host order of the machine the analysis runs on, like native struct codes)
+    import socket as _socket
+    a_ = eval_env2(repo, module, e.args[0], env, cls)
+    if a_ is OPAQUE: raise _Unknown()
+    try: return getattr(_socket, fn.attr)(a_)
+    except Exception as ex_: _note_raise(e, [a_], ex_); raise _Unknown()
   if isinstance(fn, ast.Attribute) and isinstance(fn.value, ast.Name) and fn.value.id == 'struct' and fn.attr in ('pack', 'unpack', 'unpack_from', 'calcsize') and not e.keywords \
      and 'struct' not in env.exact:
     import struct as _struct
